@@ -2,7 +2,7 @@ CONSTANTS
   Letters = {"_", "a", "b"}
   Marker = "_"
   Max = 4
-  PLens = {1, 2}
+  PLens = {2}
 INIT MInit
 NEXT MNext
 INVARIANTS NoCollision RoomForHash BothNamed
